@@ -334,6 +334,20 @@ def ix_(*a):
     raise NotEncodable('np.ix_')
 
 
+def issubdtype(dt, kind):
+    """dtype object of a facade buffer: object = real-valued (float64 in the analysed program), int64, bool"""
+    def real(t):
+        if t is nd.b_float or t is float:
+            return _np.float64
+        if t is nd.b_int or t is int:
+            return _np.int64
+        try:
+            return _np.float64 if _np.dtype(t) == object else t
+        except TypeError:
+            return t
+    return bool(_np.issubdtype(real(dt), real(kind)))
+
+
 def install(m):
     for k, v in dict(flatnonzero=flatnonzero, take=take, ravel=ravel, reshape=reshape, transpose=transpose, squeeze=squeeze, atleast_1d=atleast_1d,
                      atleast_2d=atleast_2d, expand_dims=expand_dims, insert=insert, roll=roll, tile=tile, repeat=repeat, fromiter=fromiter, var=var,
@@ -343,12 +357,15 @@ def install(m):
                      isin=isin, in1d=isin, setdiff1d=setdiff1d, union1d=union1d, intersect1d=intersect1d, outer=outer, inner=inner, matmul=matmul,
                      vdot=nd.dot, einsum=einsum, trapz=trapz, trapezoid=trapz, cumprod=cumprod, trunc=trunc, nanmax=nd.amax, nanmin=nd.amin,
                      nansum=nd.sum_, nanmean=nd.mean, nanargmax=nd.argmax, nanargmin=nd.argmin, asanyarray=nd.asarray, ascontiguousarray=nd.asarray,
-                     asfarray=nd.asarray, putmask=putmask, copyto=copyto, ediff1d=ediff1d, select=select, put=put, ix_=ix_, add=_Add(), r_=_RClass(), c_=_CClass()).items():
+                     asfarray=nd.asarray, putmask=putmask, copyto=copyto, ediff1d=ediff1d, select=select, put=put, ix_=ix_, add=_Add(), r_=_RClass(), c_=_CClass(), fmin=nd._Minimum(), fmax=nd._Maximum()).items():
         if not hasattr(m, k) or k in ('round',):
             setattr(m, k, v)
     m.float64 = m.float_ = m.double = m.float32 = nd.b_float
     m.int64 = m.int_ = m.intp = m.int32 = nd.b_int
     m.bool_ = bool
+    m.issubdtype = issubdtype
+    for nm in ('inexact', 'integer', 'floating', 'number', 'signedinteger', 'unsignedinteger', 'generic'):
+        setattr(m, nm, getattr(_np, nm))
     m.newaxis = None
     m.pi = nd.to_fr(_np.pi)
     m.inf = None
